@@ -4,7 +4,7 @@ names, plus the runner of the real targets (``main.execute``) on it.
 
 The abstract meta-model is a plain dict (JSON-able, so it can be stored in corpus/replay files):
 
-  {"types": [ {"kind": "enum",  "name": N, "literals": [L, ...]},
+  {"types": [ {"kind": "enum",  "name": N, "literals": [L, ...], ["values": [V, ...]]},   # default values: v0, v1, …
               {"kind": "class", "name": N, "abstract": bool, "parent": N|None,
                "props": [P | [P, TYPE], ...], "methods": [M, ...]},     # TYPE: "int" or the name of a type
               {"kind": "cprim", "name": N} ],
@@ -61,8 +61,12 @@ def render(mm: Dict[str, Any]) -> str:
             out.append(f"class {t['name']}(Enum):")
             if not t["literals"]:
                 out.append("    pass")
-            for lit in t["literals"]:
-                out.append(f'    {lit} = "v{val}"')
+            values = t.get("values")  # optional explicit literal values (equal-definition models)
+            for k, lit in enumerate(t["literals"]):
+                if values is not None and k < len(values):
+                    out.append(f'    {lit} = "{values[k]}"')
+                else:
+                    out.append(f'    {lit} = "v{val}"')
                 val += 1
         elif t["kind"] == "cprim":
             out.append('@invariant(lambda self: len(self) > 0, "At least one character")')
